@@ -108,8 +108,13 @@ func (c *connector) Deploy(ctx context.Context, src string) (deployer.Plugin, er
 		tag = c.config.Tag
 	}
 	w.Log("deploy-begin", src, map[string]any{"tag": tag})
+	uninterruptible := b.IgnoreCancel && phase == "run"
 	if b.DelayMs > 0 && phase == "run" {
-		sleepCtx(time.Duration(b.DelayMs)*time.Millisecond, ctx.Done())
+		if uninterruptible {
+			time.Sleep(time.Duration(b.DelayMs) * time.Millisecond)
+		} else {
+			sleepCtx(time.Duration(b.DelayMs)*time.Millisecond, ctx.Done())
+		}
 	}
 	if b.Gate != "" && phase == "run" {
 		w.WaitFor(b.Gate, ctx.Done())
@@ -118,11 +123,13 @@ func (c *connector) Deploy(ctx context.Context, src string) (deployer.Plugin, er
 		w.Log("deploy-fail", src, nil)
 		return nil, fmt.Errorf("scripted deployment failure of %s", src)
 	}
-	select {
-	case <-ctx.Done():
-		w.Log("deploy-fail", src, "context done")
-		return nil, fmt.Errorf("deployment of %s aborted: context done", src)
-	default:
+	if !uninterruptible {
+		select {
+		case <-ctx.Done():
+			w.Log("deploy-fail", src, "context done")
+			return nil, fmt.Errorf("deployment of %s aborted: context done", src)
+		default:
+		}
 	}
 	stdinSub, stdinWriter := io.Pipe()
 	stdoutReader, stdoutSub := io.Pipe()
